@@ -497,7 +497,7 @@ def c02(pid, tier, seed, t0):
     decls = copyd(star) + copyd(model) + copyd(rnd) + copyd(nc) + arrs + (tall_chunks() if tier == "thorough" else [])
     declfile = save_decls("C02", decls)
     legs = [trace_leg(pid, tier, seed, "star+model+rand", decls, declfile, "write,table", q(tier, 1, 2), crate="rt-c02")]
-    PROOFS["C02"] = tlaps_leg(["Frame", "RoundTrip"])
+    PROOFS["C02"] = tlaps_leg(["Frame", "RoundTrip", "WriteBackIdentity", "WriteIdempotent"])
     sym(pid, decls + (tall_chunks(lambda d, f: d["n"] <= 33) if tier == "quick" else []), ops=("with", "set"))
     finish(pid, tier, seed, t0, mc, legs,
            "every writable contiguous field written through with_ AND set_ at (raw, value) pairs: raws {0, ones, field mask, complement, "
@@ -520,6 +520,7 @@ def c03(pid, tier, seed, t0):
                 d["fields"] = d["fields"][::2]
     declfile = save_decls("C03", decls)
     legs = [trace_leg(pid, tier, seed, "arr+nc-arrays+rand", decls, declfile, "get,write", q(tier, 1, 3), crate="rt-c03")]
+    PROOFS["C03"] = tlaps_leg(["ElemInj", "ElemDisjoint (elements at lo + i*stride with stride >= width never share a bit)", "RoundTrip", "Frame"])
     sym(pid, decls)
     finish(pid, tier, seed, t0, mc, legs,
            "array fields of element kinds {bool,u1,u3,u8,i8,u16,enum u2,Option<enum u3>} x K in {2,3,max} x stride in {w,w+1,w+3} x lo "
@@ -535,7 +536,7 @@ def c04(pid, tier, seed, t0):
     decls = copyd(nc) + copyd(rnd)
     declfile = save_decls("C04", decls)
     legs = [trace_leg(pid, tier, seed, "nc+rand", decls, declfile, "get,write,table", q(tier, 2, 6), crate="rt-c04")]
-    PROOFS["C04"] = tlaps_leg(["Frame", "RoundTrip (Inj(p) is C04's exclusion of duplicate bits)"])
+    PROOFS["C04"] = tlaps_leg(["Frame", "RoundTrip (Inj(p) is C04's exclusion of duplicate bits)", "GatherConcat", "ScatterConcat (ranges concatenate, first range least significant)"])
     sym(pid, decls)
     finish(pid, tier, seed, t0, mc, legs,
            "non-contiguous range lists (bit reversal, byte swap, RISC-V immediates, reversed/shuffled lists, arrays of lists with "
@@ -557,6 +558,7 @@ def c05(pid, tier, seed, t0):
         decls += tall_chunks(signed)
     declfile = save_decls("C05", decls)
     legs = [trace_leg(pid, tier, seed, "signed(star,arr,nc,rand)", decls, declfile, "get,write", q(tier, 3, 10), crate="rt-c05")]
+    PROOFS["C05"] = tlaps_leg(["SignExtendTruncate (sign extension to the return type, truncation back to the field)", "RoundTrip", "Frame"])
     sym(pid, decls)
     finish(pid, tier, seed, t0, mc, legs,
            "every iN field (N in 8,16,32,64,128) of Q-star/Q-arr/Q-nc and seeded declarations: patterns 0, -1, MIN, MAX, walking bits, "
